@@ -38,7 +38,12 @@ func (e *Engine) VerifyFunc(fn *ssa.Function, ct *spec.FuncContract) (res *FuncR
 		}
 	}()
 	sc := NewScript()
-	f := &FnVC{E: e, Fn: fn, Ct: ct, SC: sc, TE: NewTypeEnv(sc), Short: shortKey(FuncKey(fn)),
+	short := shortKey(FuncKey(fn))
+	if ct != nil && ct.Swept && fn.Pkg != nil {
+		// swept functions come from many packages: keep obligation names unique by prefixing the package name
+		short = fn.Pkg.Pkg.Name() + ":" + short
+	}
+	f := &FnVC{E: e, Fn: fn, Ct: ct, SC: sc, TE: NewTypeEnv(sc), Short: short,
 		vals: map[vkey]Val{}, epochHeap: map[int]map[string]Term{}, heapSort: map[string]string{}, ord: map[string]int{},
 		params: map[string]Val{}, incoming: map[node][]edge{}, outState: map[node]*State{}, sites: map[string]*callSite{},
 		calleeOrd: map[string]int{}, Abstracted: map[string]int{}, exitMerge: map[vkey]Val{}, faDecl: map[string]bool{},
@@ -504,6 +509,15 @@ func (f *FnVC) atPanic(st *State, p *ssa.Panic) {
 		return
 	}
 	goal := boolLit(false)
+	if f.Ct != nil && f.Ct.ErrPanics {
+		// panics are contained by util.Recover iff the panic value is an error: decided on the static type of the value
+		base := "panic-value@" + f.srcKey(p.Pos())
+		f.ord[base]++
+		f.Obls = append(f.Obls, &Obligation{Name: fmt.Sprintf("%s/%s#%d", f.Short, base, f.ord[base]), Kind: "structural", Func: f.Short,
+			Structural: true, StructOK: panicValueIsError(p.X), SC: f.SC, Pos: f.posString(p.Pos()),
+			Desc: "the value of an explicit panic implements error (util.Recover converts exactly those into a returned error)"})
+		return
+	}
 	if f.Ct != nil && len(f.Ct.Panics) > 0 {
 		env := f.bodyEnv(st)
 		var cs []Term
